@@ -19,6 +19,7 @@ import time
 import traceback
 
 VERIF = os.path.dirname(os.path.dirname(os.path.abspath(__file__)))
+OUT = os.environ.get('VERIF_OUT') or VERIF   # development aid: mutant runs write elsewhere
 NPROC = min(16, os.cpu_count() or 1)
 MAX_BUCKETS_SHRUNK = 8
 
@@ -210,7 +211,7 @@ def write_replay(pid, check, signature, case, detail, minimal):
     from . import env
     commit, dirty = env.repo_commit()
     h = hashlib.sha256((check + '|' + signature).encode()).hexdigest()[:12]
-    path = os.path.join(VERIF, 'replays', '%s-%s.json' % (pid, h))
+    path = os.path.join(OUT, 'replays', '%s-%s.json' % (pid, h))
     os.makedirs(os.path.dirname(path), exist_ok=True)
     with open(path, 'w') as f:
         json.dump({'property': pid, 'check': check, 'signature': signature, 'detail': detail,
@@ -280,7 +281,7 @@ def main(argv=None):
                 kind, out = _check_case_isolated(mod, from_jsonable(data['case']), timeout=300)
                 if kind == 'ok' and out:
                     regress_fail.append((fn_, data, out))
-    rp = os.path.join(VERIF, 'replays')
+    rp = os.path.join(OUT, 'replays')
     if os.path.isdir(rp) and not args.tasks:
         for fn_ in os.listdir(rp):
             if fn_.startswith(pid + '-') and fn_.endswith('.json'):
@@ -373,7 +374,7 @@ def main(argv=None):
         'known_finding_hits': dict(known_hits),
         'inconclusive_timeout': sum(r['timeouts'] for r in results),
         'shards': len(results),
-        'violation_buckets': [{'check': c, 'signature': s, 'count': n, 'replay': os.path.relpath(p, VERIF)}
+        'violation_buckets': [{'check': c, 'signature': s, 'count': n, 'replay': os.path.relpath(p, OUT)}
                               for c, s, p, d, n in violations],
         'harness_errors': errors[:5],
         'guard_messages': guard_msgs,
@@ -386,8 +387,8 @@ def main(argv=None):
         'wall_s': round(wall, 2), 'violations': len(violations),
         'tapescript_commit': commit, 'tapescript_dirty': dirty,
     }
-    os.makedirs(os.path.join(VERIF, 'evidence'), exist_ok=True)
-    with open(os.path.join(VERIF, 'evidence', pid + '.json'), 'w') as f:
+    os.makedirs(os.path.join(OUT, 'evidence'), exist_ok=True)
+    with open(os.path.join(OUT, 'evidence', pid + '.json'), 'w') as f:
         json.dump(ev, f, indent=1, sort_keys=True)
         f.write('\n')
 
